@@ -368,6 +368,8 @@ def run(chk, b, tier):
             chk.bump("cli_stage_runs")
         if r["sample"]:
             chk.sample(r["sample"], limit=4)
+    from ._camp import generic_fault_sweep
+    generic_fault_sweep(chk, b, "C15", [['--json', '--no-progress'], ['-v', '--no-progress', '--names=none']])
     chk.cov["rule"] = ("generated configuration files in system/global/local/worktree/included/command scopes; refgroup entries "
                        "interleaved with foreign entries (value-less keys, empty / multi-line / '=' / quote / control-char "
                        "values, sections named refgroupx, subsections with dots/capitals/spaces). API: Repository.GetConfig("
